@@ -826,7 +826,8 @@ func (f *simFile) Slice(start, end int64) ([]byte, error) {
 		return nil, io.EOF
 	}
 	if f.fs.cfg.Alias {
-		return f.in.data[start:end:end], nil
+		// like fs.Mem and fs.OSMMap: the capacity of the view extends to the end of the buffer
+		return f.in.data[start:end], nil
 	}
 	return append([]byte(nil), f.in.data[start:end]...), nil
 }
